@@ -355,4 +355,60 @@ theorem sign_reduction (X : Set (Fin N → ℝ)) (α : ι → Fin N → ℝ) (T 
     SignReduced X α (fun l => ∑ k ∈ T, w k l) :=
   sign_reduction_aux X α T.card T w rfl hw
 
+theorem NN_of_nonneg (X : Set (Fin N → ℝ)) (α : ι → Fin N → ℝ) (u : ι → ℝ) (hu : ∀ j, 0 ≤ u j) : NN X α u := by
+  intro x _
+  exact Finset.sum_nonneg (fun j _ => mul_nonneg (hu j) (Real.exp_pos _).le)
+
+/-- THE EQUALITY FORM (what `sum_age_force_equality` asks for): when `c` has a negative entry, the reduced AGE functions can be chosen to
+    sum to `c` EXACTLY: the slack at a negative index goes to that index's own function, the slack elsewhere to any one of them -/
+theorem signReduced_eq (X : Set (Fin N → ℝ)) (α : ι → Fin N → ℝ) (c : ι → ℝ) (h : SignReduced X α c) (i0 : ι) (hi0 : c i0 < 0) :
+    ∃ ŵ : ι → ι → ℝ,
+      (∀ i, c i < 0 → AGEf X α i (ŵ i)) ∧
+      (∀ i l, c i < 0 → c l < 0 → l ≠ i → ŵ i l = 0) ∧
+      (∀ l, ∑ i ∈ Finset.univ.filter (fun i => c i < 0), ŵ i l = c l) := by
+  obtain ⟨w, h1, h2, h3⟩ := h
+  set δ : ι → ℝ := fun l => c l - ∑ i ∈ Finset.univ.filter (fun i => c i < 0), w i l with hδ
+  have hδ0 : ∀ l, 0 ≤ δ l := fun l => by simp only [hδ]; linarith [h3 l]
+  set e : ι → ι → ℝ := fun i l => if l = i then (if c l < 0 then δ l else (if i = i0 then δ l else 0))
+    else (if i = i0 ∧ ¬ c l < 0 then δ l else 0) with he
+  have he0 : ∀ i l, 0 ≤ e i l := by
+    intro i l
+    simp only [he]
+    split_ifs <;> first | exact hδ0 l | exact le_refl 0
+  refine ⟨fun i l => w i l + e i l, ?_, ?_, ?_⟩
+  · intro i hi
+    refine ⟨NN_add X α (w i) (e i) (h1 i hi).1 (NN_of_nonneg X α (e i) (he0 i)), ?_⟩
+    intro j hj
+    exact add_nonneg ((h1 i hi).2 j hj) (he0 i j)
+  · intro i l hi hl hli
+    have : e i l = 0 := by
+      simp only [he, hli, if_false, hl, not_true_eq_false, and_false]
+    show w i l + e i l = 0
+    rw [h2 i l hi hl hli, this, add_zero]
+  · intro l
+    show ∑ i ∈ Finset.univ.filter (fun i => c i < 0), (w i l + e i l) = c l
+    rw [Finset.sum_add_distrib]
+    have hsum : ∑ i ∈ Finset.univ.filter (fun i => c i < 0), e i l = δ l := by
+      by_cases hl : c l < 0
+      · -- only the function of l itself receives slack at l
+        rw [Finset.sum_eq_single l]
+        · simp [he, hl]
+        · intro i _ hil
+          have hli : l ≠ i := fun e' => hil e'.symm
+          simp only [he, hli, if_false, hl, not_true_eq_false, and_false]
+        · intro hnot
+          exact absurd (Finset.mem_filter.mpr ⟨Finset.mem_univ l, hl⟩) hnot
+      · -- l is not negative: only i0 receives slack at l
+        rw [Finset.sum_eq_single i0]
+        · have hli0 : l ≠ i0 := fun e' => hl (e' ▸ hi0)
+          simp [he, hli0, hl]
+        · intro i hi hii0
+          have hci : c i < 0 := (Finset.mem_filter.mp hi).2
+          have hli : l ≠ i := fun e' => hl (e' ▸ hci)
+          simp only [he, hli, if_false, hii0, false_and]
+        · intro hnot
+          exact absurd (Finset.mem_filter.mpr ⟨Finset.mem_univ i0, hi0⟩) hnot
+    rw [hsum]
+    simp only [hδ]; ring
+
 end Sageopt.Analysis
